@@ -52,6 +52,7 @@ type c09Obs struct {
 	Stuck     []string     `json:"stuck"`
 	SeqViol   []string     `json:"seq_viol"`
 	Adapters  int          `json:"adapters"`
+	MaxRecv   int          `json:"max_recv"` // largest number of goroutines seen inside AdapterProxy.Recv at once (-1: not sampled)
 	Fatal     string       `json:"fatal,omitempty"`
 	Retries   int          `json:"retries"`
 }
@@ -307,6 +308,34 @@ func c09RunScenario(c *c09Case) *c09Obs {
 			}
 		}(k)
 	}
+	obs.MaxRecv = -1
+	stopSample := make(chan struct{})
+	sampled := make(chan struct{})
+	if c.Conn == "noread-early" {
+		// the replies for callers still blocked in Send are held by their receivers until ReadTimeout: sample them
+		obs.MaxRecv = 0
+		go func() {
+			defer close(sampled)
+			for {
+				select {
+				case <-stopSample:
+					return
+				case <-time.After(4 * time.Millisecond):
+				}
+				n := 0
+				for _, f := range c09Stuck() {
+					if f == "tars.(*AdapterProxy).Recv" {
+						n++
+					}
+				}
+				if n > obs.MaxRecv {
+					obs.MaxRecv = n
+				}
+			}
+		}()
+	} else {
+		close(sampled)
+	}
 	log.mu.Lock()
 	log.t0 = time.Now()
 	log.mu.Unlock()
@@ -332,6 +361,8 @@ func c09RunScenario(c *c09Case) *c09Obs {
 	case <-done:
 	case <-time.After(hang):
 	}
+	close(stopSample)
+	<-sampled
 	// the counters are read immediately after the last call returned
 	obs.QueueLen, obs.InvokeNum, obs.Pending = snapshot()
 	rmu.Lock()
@@ -495,6 +526,18 @@ func c09Monitors(c *c09Case) (fails []Failure, timing bool) {
 			timing = true
 		}
 		if r.DurMs > c09Nominal(c, rank, r)+c09NominalMs {
+			timing = true
+		}
+	}
+	if c.Conn == "noread-early" && o.MaxRecv >= 0 {
+		// the sampler may have been starved: fewer blocked receivers seen than callers that were blocked in Send -> run again
+		nerr := 0
+		for _, r := range o.Calls {
+			if r.Out == "error" {
+				nerr++
+			}
+		}
+		if o.MaxRecv < nerr {
 			timing = true
 		}
 	}
@@ -663,9 +706,13 @@ func c09Coq(c *c09Case) string {
 	if c.ObjMax > 0 {
 		objMax = c.ObjMax
 	}
-	return fmt.Sprintf("mkcase (mkcfg %d %d %d %d %d) %s [%s] %d %d %d %d %s %s %s [%s] [%s] (%d, %d, %d)",
+	held := "None"
+	if o.MaxRecv >= 0 {
+		held = fmt.Sprintf("(Some %d)", o.MaxRecv)
+	}
+	return fmt.Sprintf("mkcase (mkcfg %d %d %d %d %d) %s [%s] %d %d %d %d %s %s %s %s [%s] [%s] (%d, %d, %d)",
 		c09U(c.DialMs), c09U(c.WriteMs), c09U(c.ReadMs), c.QueueLen, objMax, conn, strings.Join(acts, "; "),
-		c.Callers, c.Calls, c09U(c.eff()), c09U(c.GapMs), coqBool(c.OneWay), coqBool(c.Prime && c.Callers > 1), pred, strings.Join(obs, "; "), strings.Join(evs, "; "),
+		c.Callers, c.Calls, c09U(c.eff()), c09U(c.GapMs), coqBool(c.OneWay), coqBool(c.Prime && c.Callers > 1), pred, held, strings.Join(obs, "; "), strings.Join(evs, "; "),
 		c09NN(o.QueueLen), c09NN(o.InvokeNum), len(o.Pending))
 }
 
@@ -918,7 +965,7 @@ func c09Gen(tier string, rng *rand.Rand) []c09Case {
 		c.TimeoutMs = 200
 		c.DialMs = 200
 		c.WriteMs = 600
-		c.ReadMs = pick(50, 100)
+		c.ReadMs = pick(150, 200)
 		c.QueueLen = 1
 		c.Callers = pick(4, 5)
 		c.EarlyMs = 50
